@@ -88,6 +88,10 @@ def check(case):
         kind = "client" if kind == "hash" else "pooled"      # HashClient offers no item syntax
     env = Env()
     kw = {k: cfg[k] for k in ("key_prefix", "allow_unicode_keys", "encoding", "default_noreply") if k in cfg}
+    if cfg.get("serde"):
+        from props import c04
+        kw["serde"] = c04.make_serde(tuple(cfg["serde"]))
+        cfg = dict(cfg, serde_obj=c04.make_serde(tuple(cfg["serde"])))      # an independent instance computes the intended payload/flags
     try:
         c = env.client(kind, **kw)
     except Exception as e:  # noqa: BLE001
@@ -280,6 +284,32 @@ def integer_cases(tier, seed):
                     yield {"kind": kind, "cfg": cfg, "op": r}
 
 
+def serde_flag_cases(tier, seed):
+    """a serializer that produces its own flags, combined with every explicit flags value (None = use the serializer's)"""
+    i = 0
+    for spec in (["pickle", 0], ["pickle", 5], ["json"], ["compressed", 1], ["compressed-default"]):
+        for kind in ("client", "pooled", "hash"):
+            for flags in (None, 0, 1, 5, 16, 2 ** 32 - 1):
+                for val in ("text", "", 0, 12345, b"raw", b"", [1, 2], "x" * 600):
+                    if spec == ["json"] and isinstance(val, list) is False and not isinstance(val, (str, bytes, int)):
+                        continue
+                    for op in ("set", "add", "cas", "append"):
+                        i += 1
+                        r = rec_for(op, "k%d" % (i % 3), i)
+                        r["value"] = val
+                        if flags is not None:
+                            r["flags"] = flags
+                        yield {"kind": kind, "cfg": dict(BASE_CFG, serde=spec), "op": r}
+                # multi-key: values of different flag classes in one call, in both orders
+                for vals in ({"a": "text", "b": b"raw", "c": 7}, {"a": b"raw", "b": "text"}, {"n": 3, "o": [1], "t": "x"}):
+                    i += 1
+                    r = {"op": "set_many", "values": vals, "noreply": bool(i & 1)}
+                    if flags is not None:
+                        r["flags"] = flags
+                    if kind != "hash":
+                        yield {"kind": kind, "cfg": dict(BASE_CFG, serde=spec), "op": r}
+
+
 def random_strategy(tier):
     tricky = st.sampled_from([b"\r\n", b"END\r\n", b"VALUE k 0 1\r\n", b"set x 0 0 1\r\n", b"flush_all\r\n", b" noreply", b"\x00", b" ", b"STORED\r\n"])
     value = st.one_of(st.binary(max_size=64),
@@ -337,6 +367,7 @@ PARTS = [
     Part("byte-at-position", "enum", check, cases=position_cases, exhaustive=True),
     Part("multi-key", "enum", check, cases=multikey_cases, exhaustive=True),
     Part("integers-and-values", "enum", check, cases=integer_cases, exhaustive=True),
+    Part("serde-and-flags", "enum", check, cases=serde_flag_cases, exhaustive=True),
     Part("random", "hyp", check, strategy=random_strategy,
          examples={"quick": 600, "thorough": 6000}, shards={"quick": 4, "thorough": 16}),
 ]
